@@ -27,7 +27,7 @@ type Fix struct {
 
 // NewFix returns a new Fix with the given value (packed)
 func NewFix(col string, val Value) Fix {
-	packed := Pack(val.(Packable))
+	packed := PackValue(val)
 	return Fix{col: col, values: []string{packed}}
 }
 
